@@ -950,8 +950,8 @@ class VarsManager(object):
     @contextlib.contextmanager
     def temp_params(self, params):
         old_params = {i: self.get(i, val_in_fit=False) for i in params.keys()}
-        self.set_all(params)
         try:
+            self.set_all(params)
             yield
         finally:
             self.set_all(old_params)
